@@ -175,9 +175,9 @@ def eligible(fi, known):
     if n.decorator_list:
         return False
     a = n.args
-    if a.vararg or a.kwarg or a.kwonlyargs or getattr(a, "posonlyargs", []):
+    if a.vararg or a.kwarg or getattr(a, "posonlyargs", []):
         return False
-    for d in a.defaults:
+    for d in list(a.defaults) + [d for d in a.kw_defaults if d is not None]:
         if not isinstance(d, (ast.Constant, ast.Name)):
             return False
     body = _stmts(n)
@@ -319,11 +319,16 @@ class Inliner:
         values = {}
         for p, arg in zip(params, call.args):
             values[p] = arg
+        defaults = dict(zip(params[len(params) - len(a.defaults):], a.defaults)) if a.defaults else {}
+        # keyword-only parameters (`def _merge(groups, *, into)`): bound by keyword or by their own default
+        for kp, kd in zip(a.kwonlyargs, a.kw_defaults):
+            params.append(kp.arg)
+            if kd is not None:
+                defaults[kp.arg] = kd
         for k in call.keywords:
             if k.arg not in params or k.arg in values:
                 return None
             values[k.arg] = k.value
-        defaults = dict(zip(params[len(params) - len(a.defaults):], a.defaults)) if a.defaults else {}
         for p in params:
             if p not in values:
                 if p in defaults:
